@@ -426,7 +426,7 @@ Proof.
   intros pv lvl'. induction l as [|y l IH]; intros x k tail rest Hk Hpv Ht Hs.
   - destruct k as [|k]; [cbn [length] in Hk; lia|].
     cbn [map join_items parse_elems].
-    rewrite (Hpv x tail (or_introl eq_refl) Ht). rewrite Hs. reflexivity.
+    rewrite (Hpv x); [ | left; reflexivity | exact Ht ]. rewrite Hs. reflexivity.
   - destruct k as [|k]; [cbn [length] in Hk; lia|].
     rewrite join_items_map_cons. rewrite app_cons_assoc, <- app_assoc.
     cbn [parse_elems].
@@ -457,7 +457,7 @@ Proof.
     cbn [parse_members]. rewrite skip_ws_nl. rewrite skip_ws_nonspace by reflexivity.
     rewrite N.eqb_refl. rewrite psb_esc by (apply Hkeys; left; reflexivity).
     rewrite skip_ws_nonspace by reflexivity. rewrite N.eqb_refl.
-    Show. rewrite (Hpv kv tail (or_introl eq_refl) Ht). rewrite Hs.
+    rewrite (Hpv kv); [ | left; reflexivity | exact Ht ]. rewrite Hs.
     destruct kv as [key v]. reflexivity.
   - destruct k as [|k]; [cbn [length] in Hk; lia|].
     rewrite join_items_map_cons. rewrite app_cons_assoc, <- app_assoc.
@@ -472,3 +472,266 @@ Proof.
     + intros kv' r' Hin Hr'. apply Hpv; [right; exact Hin | exact Hr'].
     + intros kv' Hin. apply Hkeys. right. exact Hin.
 Qed.
+
+(* ------------------------------------------------------------ fuel *)
+(* the fuel parse_value needs for (the text of) j: one more than the nesting depth and than
+   the length of every array / object on the way *)
+Fixpoint need (j : json) : nat :=
+  match j with
+  | JRaw _ => 0
+  | JArr l => S (Nat.max (length l) (list_max (map need l)))
+  | JObj m => S (Nat.max (length m) (list_max (map (fun kv => need (snd kv)) m)))
+  | _ => 1
+  end.
+
+Lemma list_max_ge : forall l n, In n l -> (n <= list_max l)%nat.
+Proof.
+  induction l as [|a l IH]; intros n Hin; [destruct Hin|].
+  cbn [list_max fold_right]. fold (list_max l).
+  destruct Hin as [->|Hin]; [lia|]. specialize (IH n Hin). lia.
+Qed.
+
+Lemma need_arr : forall l f, (need (JArr l) <= S f)%nat ->
+  (length l <= f)%nat /\ forall y, In y l -> (need y <= f)%nat.
+Proof.
+  intros l f H. cbn [need] in H. split; [lia|].
+  intros y Hy. pose proof (list_max_ge (map need l) (need y) (in_map need l y Hy)). lia.
+Qed.
+
+Lemma need_obj : forall m f, (need (JObj m) <= S f)%nat ->
+  (length m <= f)%nat /\ forall kv, In kv m -> (need (snd kv) <= f)%nat.
+Proof.
+  intros m f H. cbn [need] in H. split; [lia|].
+  intros kv Hkv.
+  pose proof (list_max_ge (map (fun kv => need (snd kv)) m) (need (snd kv))
+                (in_map (fun kv => need (snd kv)) m kv Hkv)). lia.
+Qed.
+
+(* ------------------------------------------------------------ the generalised round trip *)
+Lemma ser_arr_app : forall lvl x l rest,
+  serialize_at lvl (JArr (x :: l)) ++ rest =
+  91 :: newline_indent (S lvl) ++ join_items (S lvl) (map (serialize_at (S lvl)) (x :: l))
+     ++ (newline_indent lvl ++ 93 :: rest).
+Proof.
+  intros lvl x l rest.
+  change (serialize_at lvl (JArr (x :: l))) with
+    (91 :: newline_indent (S lvl) ++ join_items (S lvl) (map (serialize_at (S lvl)) (x :: l))
+        ++ newline_indent lvl ++ [93]).
+  cbn [app]. rewrite <- !app_assoc. reflexivity.
+Qed.
+
+Lemma ser_obj_app : forall lvl kv m rest,
+  serialize_at lvl (JObj (kv :: m)) ++ rest =
+  123 :: newline_indent (S lvl) ++ join_items (S lvl) (map (member_text (S lvl)) (kv :: m))
+      ++ (newline_indent lvl ++ 125 :: rest).
+Proof.
+  intros lvl kv m rest.
+  change (serialize_at lvl (JObj (kv :: m))) with
+    (123 :: newline_indent (S lvl) ++ join_items (S lvl) (map (member_text (S lvl)) (kv :: m))
+         ++ newline_indent lvl ++ [125]).
+  cbn [app]. rewrite <- !app_assoc. reflexivity.
+Qed.
+
+Lemma pv_ser : forall fuel j lvl rest,
+  (need j <= fuel)%nat -> json_ok j = true -> num_end rest = true ->
+  parse_value fuel (serialize_at lvl j ++ rest) = Some (j, rest).
+Proof.
+  induction fuel as [|f IH]; intros j lvl rest Hfuel Hok Hend.
+  - destruct j; cbn [need] in Hfuel; try lia. discriminate.
+  - destruct j as [|b|z|r|s|l|m].
+    + apply pv_null.
+    + destruct b; [apply pv_true|apply pv_false].
+    + cbn [serialize_at].
+      destruct (dec_Z_head z) as (c & t & E & Hc).
+      pose proof (parse_number_dec_Z z rest Hend) as Hp.
+      rewrite E in Hp |- *. cbn [app] in Hp |- *.
+      rewrite pv_num by exact Hc. exact Hp.
+    + discriminate.
+    + cbn [serialize_at json_ok] in Hok |- *. rewrite esc_string_app, pv_quote.
+      rewrite psb_esc by exact Hok. reflexivity.
+    + destruct l as [|x l]; [reflexivity|].
+      destruct (need_arr _ _ Hfuel) as [Hlen Hneed].
+      cbn [json_ok] in Hok.
+      assert (Hoks : forall y, In y (x :: l) -> json_ok y = true)
+        by (apply forallb_forall; exact Hok).
+      rewrite ser_arr_app, pv_bracket.
+      destruct (ser_head (S lvl) x (Hoks x (or_introl eq_refl))) as (c & t & Ec & Hsp & Hc93).
+      destruct (join_items_head (S lvl) (serialize_at (S lvl) x) (map (serialize_at (S lvl)) l) c t Ec)
+        as (t' & Ej).
+      assert (Hsk : forall tail,
+                skip_ws (newline_indent (S lvl) ++
+                         join_items (S lvl) (map (serialize_at (S lvl)) (x :: l)) ++ tail)
+                = c :: t' ++ tail).
+      { intro tail. rewrite skip_ws_nl. cbn [map]. unfold str, char in *. rewrite Ej. cbn [app].
+        apply skip_ws_nonspace. exact Hsp. }
+      rewrite Hsk.
+      destruct (N.eqb_spec c 93) as [E93|_]; [contradiction|].
+      rewrite (parse_elems_join (parse_value f) (S lvl) l x f _ rest); [reflexivity | exact Hlen | | reflexivity | ].
+      * intros y r' Hin Hr'. rewrite pv_nl. apply IH; [apply Hneed; exact Hin | apply Hoks; exact Hin | exact Hr'].
+      * rewrite skip_ws_nl. reflexivity.
+    + destruct m as [|kv m]; [reflexivity|].
+      destruct (need_obj _ _ Hfuel) as [Hlen Hneed].
+      cbn [json_ok] in Hok.
+      assert (Hoks : forall kv', In kv' (kv :: m) -> str_ok (fst kv') && json_ok (snd kv') = true)
+        by (apply forallb_forall; exact Hok).
+      rewrite ser_obj_app, pv_brace.
+      assert (Hsk : forall tail,
+                skip_ws (newline_indent (S lvl) ++
+                         join_items (S lvl) (map (member_text (S lvl)) (kv :: m)) ++ tail)
+                = 34 :: tl (join_items (S lvl) (map (member_text (S lvl)) (kv :: m))) ++ tail).
+      { intro tail. rewrite skip_ws_nl. cbn [map].
+        destruct (join_items_head (S lvl) (member_text (S lvl) kv) (map (member_text (S lvl)) m)
+                    34 (flat_map esc_char (fst kv) ++ 34 :: 58 :: 32 :: serialize_at (S lvl) (snd kv)))
+          as (t' & Ej).
+        { unfold member_text. apply esc_string_app. }
+        unfold str, char in *. rewrite Ej. reflexivity. }
+      rewrite Hsk.
+      change (34 =? 125) with false. cbv iota.
+      rewrite (parse_members_join (parse_value f) (S lvl) m kv f _ rest); [reflexivity | exact Hlen | | | reflexivity | ].
+      * intros kv' r' Hin Hr'. rewrite pv_sp.
+        apply IH; [apply Hneed; exact Hin | | exact Hr'].
+        specialize (Hoks kv' Hin). apply andb_true_iff in Hoks. apply Hoks.
+      * intros kv' Hin. specialize (Hoks kv' Hin). apply andb_true_iff in Hoks. apply Hoks.
+      * rewrite skip_ws_nl. reflexivity.
+Qed.
+
+(* ------------------------------------------------------------ the text is long enough to be fuel *)
+(* structural induction through the nested lists *)
+Fixpoint json_ind' (P : json -> Prop)
+    (HNull : P JNull) (HBool : forall b, P (JBool b)) (HInt : forall z, P (JInt z))
+    (HRaw : forall r, P (JRaw r)) (HStr : forall s, P (JStr s))
+    (HArr : forall l, Forall P l -> P (JArr l))
+    (HObj : forall m, Forall (fun kv => P (snd kv)) m -> P (JObj m))
+    (j : json) {struct j} : P j :=
+  match j with
+  | JNull => HNull
+  | JBool b => HBool b
+  | JInt z => HInt z
+  | JRaw r => HRaw r
+  | JStr s => HStr s
+  | JArr l =>
+    HArr l ((fix go (l : list json) : Forall P l :=
+               match l with
+               | [] => Forall_nil P
+               | x :: r => Forall_cons x (json_ind' P HNull HBool HInt HRaw HStr HArr HObj x) (go r)
+               end) l)
+  | JObj m =>
+    HObj m ((fix go (m : list (str * json)) : Forall (fun kv => P (snd kv)) m :=
+               match m with
+               | [] => Forall_nil _
+               | (k, v) :: r =>
+                 @Forall_cons _ (fun kv => P (snd kv)) (k, v) r
+                              (json_ind' P HNull HBool HInt HRaw HStr HArr HObj v) (go r)
+               end) m)
+  end.
+
+Lemma join_len_count : forall lvl items, (length items <= S (length (join_items lvl items)))%nat.
+Proof.
+  intros lvl. induction items as [|x r IH]; [cbn [length]; lia|].
+  destruct r as [|y r]; [cbn [length join_items]; lia|].
+  change (join_items lvl (x :: y :: r)) with (x ++ 44 :: newline_indent lvl ++ join_items lvl (y :: r)).
+  rewrite app_length. cbn [length] in IH |- *. rewrite app_length. lia.
+Qed.
+
+Lemma join_len_item : forall lvl items x, In x items -> (length x <= length (join_items lvl items))%nat.
+Proof.
+  intros lvl. induction items as [|a r IH]; intros x Hin; [destruct Hin|].
+  destruct r as [|y r].
+  - destruct Hin as [->|[]]. cbn [join_items]. lia.
+  - change (join_items lvl (a :: y :: r)) with (a ++ 44 :: newline_indent lvl ++ join_items lvl (y :: r)).
+    rewrite app_length. cbn [length]. rewrite app_length.
+    destruct Hin as [->|Hin]; [lia|]. specialize (IH x Hin). lia.
+Qed.
+
+Lemma list_max_bound : forall l n, (forall k, In k l -> (k <= n)%nat) -> (list_max l <= n)%nat.
+Proof.
+  induction l as [|a l IH]; intros n H; [cbn; lia|].
+  cbn [list_max fold_right]. fold (list_max l).
+  pose proof (H a (or_introl eq_refl)). pose proof (IH n (fun k Hk => H k (or_intror Hk))). lia.
+Qed.
+
+Lemma nl_len : forall k, (1 <= length (newline_indent k))%nat.
+Proof. intro k. unfold newline_indent. cbn [length]. lia. Qed.
+
+Lemma need_le_len : forall j lvl, (need j <= length (serialize_at lvl j))%nat.
+Proof.
+  induction j as [|b|z|r|s|l IHl|m IHm] using json_ind'; intro lvl.
+  - cbn. lia.
+  - destruct b; cbn; lia.
+  - cbn [need serialize_at]. destruct (dec_Z_head z) as (c & t & E & _). rewrite E. cbn [length]. lia.
+  - cbn [need]. lia.
+  - cbn [need serialize_at]. unfold esc_string. cbn [length]. lia.
+  - destruct l as [|x l]; [cbn; lia|].
+    change (serialize_at lvl (JArr (x :: l))) with
+      (91 :: newline_indent (S lvl) ++ join_items (S lvl) (map (serialize_at (S lvl)) (x :: l))
+          ++ newline_indent lvl ++ [93]).
+    cbn [need]. set (items := map (serialize_at (S lvl)) (x :: l)).
+    cbn [length]. rewrite !app_length. cbn [length].
+    pose proof (join_len_count (S lvl) items) as Hc.
+    unfold items in Hc at 1. rewrite map_length in Hc.
+    assert (Hm : (list_max (map need (x :: l)) <= length (join_items (S lvl) items))%nat).
+    { apply list_max_bound. intros k Hk. apply in_map_iff in Hk. destruct Hk as (y & <- & Hy).
+      rewrite Forall_forall in IHl. specialize (IHl y Hy (S lvl)).
+      pose proof (join_len_item (S lvl) items (serialize_at (S lvl) y)
+                    (in_map (serialize_at (S lvl)) (x :: l) y Hy)). lia. }
+    pose proof (nl_len (S lvl)); pose proof (nl_len lvl); cbn [length] in Hc; lia.
+  - destruct m as [|kv m]; [cbn; lia|].
+    change (serialize_at lvl (JObj (kv :: m))) with
+      (123 :: newline_indent (S lvl) ++ join_items (S lvl) (map (member_text (S lvl)) (kv :: m))
+           ++ newline_indent lvl ++ [125]).
+    cbn [need]. set (items := map (member_text (S lvl)) (kv :: m)).
+    cbn [length]. rewrite !app_length. cbn [length].
+    pose proof (join_len_count (S lvl) items) as Hc.
+    unfold items in Hc at 1. rewrite map_length in Hc.
+    assert (Hm : (list_max (map (fun kv => need (snd kv)) (kv :: m))
+                  <= length (join_items (S lvl) items))%nat).
+    { apply list_max_bound. intros k Hk. apply in_map_iff in Hk. destruct Hk as (kv' & <- & Hy).
+      rewrite Forall_forall in IHm. specialize (IHm kv' Hy (S lvl)).
+      pose proof (join_len_item (S lvl) items (member_text (S lvl) kv')
+                    (in_map (member_text (S lvl)) (kv :: m) kv' Hy)) as Hi.
+      unfold member_text at 1 in Hi. rewrite app_length in Hi. cbn [length] in Hi. lia. }
+    pose proof (nl_len (S lvl)); pose proof (nl_len lvl); cbn [length] in Hc; lia.
+Qed.
+
+(* ------------------------------------------------------------ the round trip *)
+Theorem parse_serialize : forall j, json_ok j = true -> parse_json (serialize j) = Some j.
+Proof.
+  intros j Hok. unfold parse_json, serialize.
+  pose proof (pv_ser (S (length (serialize_at 0 j))) j 0 [] ) as H.
+  rewrite app_nil_r in H. rewrite H; [reflexivity | | exact Hok | reflexivity].
+  pose proof (need_le_len j 0). lia.
+Qed.
+
+Theorem serialize_nonempty : forall j, json_ok j = true -> serialize j <> [].
+Proof.
+  intros j Hok. unfold serialize.
+  destruct (ser_head 0 j Hok) as (c & t & E & _). rewrite E. discriminate.
+Qed.
+
+(* ------------------------------------------------------------ non-vacuity *)
+Definition ex_doc : json :=
+  JObj [ ([114;111;119;115],                                   (* "rows" *)
+          JArr [ JObj [([105;100], JInt 1); ([118], JStr [97;34;98;92;99;10;100;233;128512])];
+                 JObj [([105;100], JInt (-42)); ([118], JNull)];
+                 JObj [] ]);
+         ([110;101;103], JInt (-7));
+         ([101;109;112;116;121;32;233], JArr []);
+         ([111], JObj []);
+         ([102;108;97;103;115], JArr [JBool true; JBool false; JInt 0; JInt 1234567890123456789]) ].
+
+Example parse_serialize_nonvacuous :
+  json_ok ex_doc = true /\ parse_json (serialize ex_doc) = Some ex_doc.
+Proof. split; vm_compute; reflexivity. Qed.
+
+(* a lone surrogate pair of code points is not a string of scalar values: the writer emits
+   \ud83d\ude00 and the reader (like Python's) combines the two escapes into U+1F600 *)
+Example surrogate_not_roundtrip :
+  parse_json (serialize (JStr [55357; 56832])) <> Some (JStr [55357; 56832]).
+Proof. vm_compute. discriminate. Qed.
+
+Example surrogate_reads_as_pair :
+  parse_json (serialize (JStr [55357; 56832])) = Some (JStr [128512]).
+Proof. vm_compute. reflexivity. Qed.
+
+Print Assumptions parse_serialize.
+Print Assumptions serialize_nonempty.
